@@ -116,6 +116,7 @@ def run(idx, rep, tier):
                 ok = equal(t, want, defs=defs)
                 rep.decide(ok, "function-rule", rule.role, f"returns {show(norm(t))}; required {show(norm(expand(want, defs)))}", detail="" if ok else "meaning", locs=[idx.loc(fi.module, r)])
             fwd_alg(rep, rule, fi, "pow")
+            branch_safety(idx, rep, rule)
             continue
         generic_pow(idx, rep, rule, te)
     rep.floor("function-rule", 14)
@@ -177,6 +178,36 @@ def krylov_ctor(idx, rep, rule, rets):
         c = r.value
         ok = isinstance(c, ast.Call) and len(c.args) >= 2 and ast.unparse(c.args[0]) == a and ast.unparse(c.args[1]) == fp
         rep.decide(ok, "function-rule", rule.role, f"constructs {ast.unparse(c)[:60]}" + ("" if ok else f"; expected ({a}, {fp}, ...)"), detail="" if ok else "args", locs=[idx.loc(fi.module, r)])
+
+
+def nospace(n):
+    return ast.unparse(n).replace(" ", "")
+
+
+def branch_safety(idx, rep, rule):
+    """a non-integer power does not distribute over a MULTIPLICATIVE decomposition on the principal branch: (X Y)^a = X^a Y^a needs
+    arg(eig X) + arg(eig Y) to stay inside (-pi, pi].  Rules for Kronecker products and (scalar x operator) products that raise the
+    parts separately therefore need a guard (positive definite parts, or an integer exponent); block-wise, element-wise and
+    transposition rules are exact and need none."""
+    fi = rule.func
+    kinds = sorted(rule.types[0])
+    if not (set(kinds) & {"Kronecker", "Product"}):
+        return
+    a, al = rule.params[0][0], rule.params[1][0]
+    distributes = [c for c in df.calls(fi.node) if isinstance(c.func, ast.Name) and c.func.id in ("pow", "sqrt", "isqrt") and c.args and nospace(c.args[0]) != a]
+    scalar_pows = [n for n in df.body_nodes(fi.node) if isinstance(n, ast.BinOp) and isinstance(n.op, ast.Pow) and al in df.names_in(n.right)]
+    if not distributes and not scalar_pows:
+        return
+    guards = []
+    if isinstance(rule.cond, ast.Lambda):
+        guards.append(nospace(rule.cond.body))
+    guards += [nospace(st.test) for st in fi.node.body if isinstance(st, ast.Assert)]
+    guards += [nospace(t) for r in df.returns(fi.node) for t, pol in df.branch_conditions(r, fi.node) if pol]
+    safe = any(("PSD" in g and "isa" in g) or ("round(" in g and al in g) or ("is_integer" in g) for g in guards)
+    what = ", ".join(sorted({nospace(c)[:40] for c in distributes} | {nospace(n)[:30] for n in scalar_pows}))
+    rep.decide(True if safe else False, "branch-safety", rule.role, f"raises the parts separately ({what})" + (" under a guard that keeps the arguments from wrapping" if safe else
+               ": no guard restricts the parts to positive definite ones (or the exponent to integers); for parts whose spectra lie on the negative axis the product of the principal "
+               "powers is not the principal power of the product (sqrt of (-A) (x) (-B) comes out as minus the principal root)"), detail="" if safe else "unguarded", locs=[rule.loc])
 
 
 def scalar_exponent(fn, var=None):
